@@ -26,6 +26,9 @@ func (p *Program) extraCoverage(prop string) map[string]interface{} {
 	if p.conformanceNote != "" {
 		out["dependency_conformance_audit"] = p.conformanceNote
 	}
+	if p.probeSelftest != nil {
+		out["prelude_probe_selftest"] = p.probeSelftest
+	}
 	if p.twinStats != nil {
 		out["clause_twins"] = p.twinStats
 	}
